@@ -131,6 +131,11 @@ def rule_recur(crate, dispositions, root="Context::interpret_with_settings"):
             if why:
                 break
         rep = min(local, key=lambda s: (len(s), s))
+        # keep the key of a dispositioned component stable when functions are added to / renamed in it
+        for cand in sorted(local):
+            if "scc:%s" % cand.replace("crate::", "") in dispositions:
+                rep = cand
+                break
         short = rep.replace("crate::", "")
         key = "scc:%s" % short
         b0 = crate.hir.get(rep) or crate.hir.get(local[0])
